@@ -517,6 +517,10 @@ def execute(case, ctx):
     if name == "mtvrp":
         # route length equal to the distance limit in exact dyadic arithmetic (oracle-certified, see judge_mtvrp)
         exact = set(exact) | {"distance_limit="}
+    if name == "svrp" and case["src"] == "lat":
+        # hand-built crews and requirements are small integers: "required skill == technician's level" is exact, and the
+        # docstring is explicit ("greater or equal")
+        exact = set(exact) | {"skill"}
     ctx.event(f"env:{name}")
     if case.get("coincident_customers"):
         ctx.event("coincident_customers")
